@@ -31,6 +31,7 @@ const (
 	vClosure // a function literal bound to a local name (lambda-lifted to a definition of the namespace)
 	vIntTab  // a package-level array of int constants
 	vErrFlag // the error result of a configuration check, as a Bool (true = non-nil)
+	vStruct  // a struct of float64 / int / bool fields: flattened into one variable per field (structs.go)
 )
 
 const (
@@ -59,11 +60,21 @@ type variable struct {
 	written      bool // vList: Set / CopyFrom is called on it
 	reassigned   bool // a parameter assigned before the loop: from then on a pre-loop local
 	clo          *closureDef
-	fdepth       int  // nesting depth of function literals at the declaration
-	capturedAt   bool // captured by a function literal: may not be assigned afterwards
+	fdepth       int         // nesting depth of function literals at the declaration
+	capturedAt   bool        // captured by a function literal: may not be assigned afterwards
+	st           *structInfo // vStruct: its type
+	fields       []*variable // vStruct: the variables of its fields
+	parent       *variable   // the struct variable this is a field of
+	declSub      int         // position among the field variables of one struct (same declPos)
+	sigma        bool        // a series parameter of a helper that the helper only passes on whole: abstract type σ
+	boolLit      string      // a Bool variable that is the literal `true` / `false` (assigned once)
+	sunk         bool        // a pre-loop value computed from parameters only, assigned once: a `let` at the top of step / final
 }
 
 func (v *variable) typ() string {
+	if v.sigma {
+		return "σ"
+	}
 	switch v.kind {
 	case vBool, vErrFlag:
 		return "Bool"
@@ -190,31 +201,37 @@ type kernel struct {
 	tables    []*variable   // series passed whole to such a function
 	ignored   []string      // print statements
 
-	resTypes     []string // Lean types of the results of the function being rendered
-	clo          *closureDef
-	fdepth       int
-	helperOf     string // the helper function being translated (prefix of its function literals' names)
-	lits         map[string]*ast.FuncLit
-	allowPartial bool // the next call may be of a function that may panic (statement level)
-	lastPartial  bool
-	deeper       bool        // the statement just rendered opened a `some` arm: the rest of the block goes one level deeper
-	whole        bool        // whole-function mode
-	lists        []*variable // whole mode: the series, as lists
-	params       []*variable // all value parameters in order (typed)
-	postText     string      // statements after the loop: the definition `final`
-	postPartial  bool
-	nfuel        int
-	hoisted      map[*ast.CallExpr]*hoistedCall
-	idx          idxInfo
-	tableSeries  []*variable // series parameters used as tables: List α parameters
-	preInd       int         // the pre-loop lets are rendered this much deeper (inside `some` arms of calls that may panic)
-	prePartial   bool        // a pre-loop statement may panic: guard / pre / init are Options
-	guardZero    bool        // the early return leaves the named results at their zero values
-	inFinal      bool        // rendering the statements after the loop
-	fuels        []string    // fuel parameters of step (one per sub-step loop)
-	usesSlices   bool
-	liftLoops    bool              // table entry Lift
-	derived      map[string]string // temporary series of a delegating branch: per-step expression
+	resTypes           []string // Lean types of the results of the function being rendered
+	clo                *closureDef
+	fdepth             int
+	helperOf           string // the helper function being translated (prefix of its function literals' names)
+	lits               map[string]*ast.FuncLit
+	allowPartial       bool // the next call may be of a function that may panic (statement level)
+	lastPartial        bool
+	deeper             bool        // the statement just rendered opened a `some` arm: the rest of the block goes one level deeper
+	whole              bool        // whole-function mode
+	lists              []*variable // whole mode: the series, as lists
+	params             []*variable // all value parameters in order (typed)
+	postText           string      // statements after the loop: the definition `final`
+	postPartial        bool
+	nfuel              int
+	hoisted            map[*ast.CallExpr]*hoistedCall
+	idx                idxInfo
+	tableSeries        []*variable // series parameters used as tables: List α parameters
+	preInd             int         // the pre-loop lets are rendered this much deeper (inside `some` arms of calls that may panic)
+	prePartial         bool        // a pre-loop statement may panic: guard / pre / init are Options
+	guardZero          bool        // the early return leaves the named results at their zero values
+	inFinal            bool        // rendering the statements after the loop
+	fuels              []string    // fuel parameters of step (one per sub-step loop)
+	usesSlices         bool
+	liftLoops          bool // table entry Lift
+	preReadsStateParam bool // a statement before the loop reads a parameter that is also a state
+	blockSunk          bool // ALL statements before the loop are `let`s at the top of step / final (no `pre`)
+	blockDecided       bool
+	defRhs             ast.Expr          // the source expression of the declaration `define` is about to render
+	sunkLets           []sunkLet         // the pre-loop values that are `let`s at the top of step / final, in program order
+	assignedTwice      map[string]bool   // names declared or assigned more than once in the function (syntactic)
+	derived            map[string]string // temporary series of a delegating branch: per-step expression
 }
 
 // a function of the module with results (float64, error), not translated: `step` takes it as an argument of type
@@ -298,6 +315,9 @@ func (k *kernel) declare(id *ast.Ident, kind vkind) *variable {
 		}
 		v.lean = l
 	}
+	if kind == vStruct && !k.inLoop && k.wantHidden[id.Pos()] {
+		k.fail(id, "loop-carried variable %s of struct type", id.Name)
+	}
 	if (kind == vFloat || kind == vIntVar || kind == vSlice || kind == vBool) && !k.inLoop && k.wantHidden[id.Pos()] {
 		v.state, v.hidden = true, true
 		k.hidden = append(k.hidden, v)
@@ -347,6 +367,15 @@ func (k *kernel) resolveFunc(fun ast.Expr) *funcRef {
 		}
 	case *ast.SelectorExpr:
 		x, ok := f.X.(*ast.Ident)
+		if ok {
+			if v := k.lookup(x.Name); v != nil && v.kind == vStruct { // a method of a struct variable
+				p := k.w.load(strings.SplitN(v.st.key, ".", 2)[0])
+				if fd, ok := p.methods[v.st.name+"."+f.Sel.Name]; ok {
+					return &funcRef{p, p.mfile[v.st.name+"."+f.Sel.Name], fd}
+				}
+				return nil
+			}
+		}
 		if !ok || k.lookup(x.Name) != nil {
 			return nil
 		}
@@ -387,7 +416,7 @@ func floatSignature(ft *ast.FuncType) (int, int, bool) {
 
 // the Lean definition of a helper function (translated on first use; callees are emitted first)
 func (k *kernel) helper(call ast.Node, r *funcRef) *helperDef {
-	key := r.p.dir + "." + r.fd.Name.Name
+	key := r.p.dir + "." + funcName(r.fd)
 	if h, ok := k.hs.by[key]; ok {
 		k.reference(call, h)
 		return h
@@ -401,9 +430,9 @@ func (k *kernel) helper(call ast.Node, r *funcRef) *helperDef {
 	}
 	nin, nout := len(ins), len(outs)
 	_, _, allFloat := floatSignature(r.fd.Type)
-	name := fresh0(r.fd.Name.Name)
+	name := fresh0(strings.Replace(funcName(r.fd), ".", "_", 1))
 	for i := 0; reservedDefs[name] || k.hs.names[name]; i++ {
-		name = fmt.Sprintf("%s_fn%s", r.fd.Name.Name, strings.Repeat("'", i))
+		name = fmt.Sprintf("%s_fn%s", strings.Replace(funcName(r.fd), ".", "_", 1), strings.Repeat("'", i))
 	}
 	k.hs.names[name] = true
 	h := &helperDef{key: key, lean: name, nin: nin, nout: nout, ins: ins, outs: outs}
@@ -431,6 +460,20 @@ func (k *kernel) helper(call ast.Node, r *funcRef) *helperDef {
 	k.hs.order = append(k.hs.order, h)
 	k.reference(call, h)
 	return h
+}
+
+// the name of a function, `T.m` for a method of T / *T
+func funcName(fd *ast.FuncDecl) string {
+	if fd.Recv != nil && len(fd.Recv.List) == 1 {
+		t := fd.Recv.List[0].Type
+		if s, ok := t.(*ast.StarExpr); ok {
+			t = s.X
+		}
+		if id, ok := t.(*ast.Ident); ok {
+			return id.Name + "." + fd.Name.Name
+		}
+	}
+	return fd.Name.Name
 }
 
 // a Lean local of the same name would capture the reference
